@@ -335,7 +335,9 @@ example : exClipTable.valid = true ∧
 /-- **Merging equally named pure tasks is invisible in the data.** `dask.delayed(leaf, pure=True)` names a task by the
 content of the instruction and the names of its argument tasks (`Table.token`); instructions with the same name become
 one task whose single result all their consumers receive. The value of an instruction is a function of that name, so
-every consumer receives exactly the value of the instruction it asked for. -/
+every consumer receives exactly the value of the instruction it asked for. Here the name is built from the instruction
+*content itself* (`Table.token`: equal names = equal instructions over equally named arguments); for an arbitrary
+content naming see `C02_dask_merged_partial` / `_counterexample` below: equal names must imply equal content. -/
 theorem C02_dask_pure_tasks (A : Option Assets) (t : Table) (k₁ k₂ : Key)
     (h : t.token t.fuel k₁ = t.token t.fuel k₂) : Table.value A t t.fuel k₁ = Table.value A t t.fuel k₂ :=
   value_of_token A t t.fuel k₁ k₂ h
@@ -352,6 +354,66 @@ theorem C02_dask_pure_tasks_builders (code : Instance → Actor) (A : Option Ass
 example : let t : Table := [⟨.uid 0, .functor 0 .apply [], []⟩, ⟨.uid 1, .functor 1 .apply [], [.uid 0]⟩,
                             ⟨.uid 2, .functor 1 .apply [], [.uid 0]⟩, ⟨.uid 3, .functor 3 .apply [], [.uid 1, .uid 2]⟩]
     t.token t.fuel (.uid 1) = t.token t.fuel (.uid 2) := by rfl
+
+/-! ### what "equally named" has to mean -/
+
+/-- the statement for an arbitrary content naming `nm` (dask's `normalize_token` of the instruction object): on every
+valid table the graph in which equally named tasks are one task delivers the dependency-ordered value of every sink.
+False in general - it needs `nm` to tell instruction contents apart (`C02_dask_merged_partial`); a naming by what a
+functor *prints* does not (`C02_dask_merged_counterexample`, `C02_repr_not_injective`). The runner leaves the naming to
+dask's default (the pickled content of `Functor(builder, action)`: class, positional and keyword arguments, action
+chain), which the harness checks to be injective on the instruction sets it generates. -/
+def C02_dask_merged_full : Prop :=
+  ∀ (nm : Instr → Nat) (A : Option Assets) (t : Table) (r : Key → Nat), t.ranked r = true →
+    ∀ k ∈ t.sinks, Table.valueMerged nm A t t.fuel k = Table.value A t t.fuel k
+
+/-- **Merging equally named tasks is invisible whenever equal names imply equal instruction content** (actor identity
+- class and every constructor argument -, action, presets, getter index, loader key): then the merged graph computes
+the dependency-ordered value of every instruction, whichever of the equally named instructions dask keeps. -/
+theorem C02_dask_merged_partial [DecidableEq N] (nm : Instr → N) (A : Option Assets) (t : Table)
+    (hinj : t.namesInjective nm) (k : Key) :
+    Table.valueMerged nm A t t.fuel k = Table.value A t t.fuel k :=
+  valueMerged_eq A hinj t.fuel k
+
+/-- the content itself is such a naming: `C02_dask_pure_tasks` is the instance `nm = id` -/
+theorem C02_dask_merged_id (A : Option Assets) (t : Table) (k : Key) :
+    Table.valueMerged id A t t.fuel k = Table.value A t t.fuel k :=
+  valueMerged_eq A (fun _ _ _ _ h => h) t.fuel k
+
+/-- a naming that forgets which configured instance a functor applies (as a printed builder does when the differing
+argument is not printed): two parallel branches over the same result, actors 4001 and 8001 of one class -/
+def nmPrinted : Instr → Nat
+  | .functor a _ _ => a % 4000
+  | _ => 0
+
+def exPrinted : Table :=
+  [⟨.uid 0, .functor 0 .apply [], []⟩, ⟨.uid 1, .functor 4001 .apply [], [.uid 0]⟩,
+   ⟨.uid 2, .functor 8001 .apply [], [.uid 0]⟩, ⟨.uid 3, .functor 3 .apply [], [.uid 1, .uid 2]⟩]
+
+/-- which actor made the second argument of an `apply` term -/
+def secondMaker : Val → Nat
+  | .apply _ _ [_, .apply a _ _] => a
+  | _ => 0
+
+/-- under the printed naming the two branches are one task: the sink receives the result of actor 4001 twice, the
+dependency-ordered evaluation hands it the results of 4001 and 8001 -/
+theorem C02_dask_merged_counterexample : ¬ C02_dask_merged_full := by
+  intro h
+  have h3 := h nmPrinted none exPrinted idRank (by decide) (.uid 3) (by decide)
+  have : secondMaker (Table.valueMerged nmPrinted none exPrinted exPrinted.fuel (.uid 3)) =
+      secondMaker (Table.value none exPrinted exPrinted.fuel (.uid 3)) := by rw [h3]
+  exact absurd this (by decide)
+
+example : exPrinted.ranked idRank = true ∧ exPrinted.sinks = [.uid 3] ∧
+    exPrinted.sameName nmPrinted exPrinted.fuel (.uid 1) (.uid 2) = true ∧
+    exPrinted.sameName id exPrinted.fuel (.uid 1) (.uid 2) = false := by decide
+
+/-- **What a builder prints does not determine it**: `Clip.builder(upper=None)` and `Clip.builder()` print the same
+(`flow.name` drops `None` keyword arguments) and configure different actors - so a task name derived from the printed
+form is not injective on instruction content. -/
+theorem C02_repr_not_injective :
+    ∃ b₁ b₂ : Spec, b₁.valid = true ∧ b₂.valid = true ∧ b₁.repr = b₂.repr ∧ b₁.call ≠ b₂.call :=
+  ⟨⟨exClip, [], [(0, .none)]⟩, ⟨exClip, [], []⟩, by decide, by decide, by decide, by decide⟩
 
 /-! ### the code before the repair (for the record) -/
 
